@@ -6,9 +6,7 @@
 // their `inv / ndigits / emits` are DEFINITIONS on the structure; their two methods are external_body and carry the
 // trait's contract -- each is PROVED on the concrete type in another unit, in the equivalent concrete form:
 //   width():  int_fmt_width (word_width, dword_width, medium_width, large_width)      ret == ndigits
-//   write():  int_fmt_digits (word_write, medium_write), int_fmt_large_write (large_write); PreparedDword::write
-//             (non_power_two.rs:218-220, `digit_writer.write(&self.digits[self.start_index..])`, the same line as
-//             PreparedWord::write) is NOT proved anywhere: assumed here.
+//   write():  int_fmt_digits (word_write, medium_write), int_fmt_large_write (large_write), int_fmt_dword (dword_write)
 // What a concrete contract says with `pre + ds` (emitted(pre, out, n, r, v)) the trait says about ds alone
 // (emitted(empty, ds, n, r, v)): the same digits at shifted positions.
 
